@@ -305,6 +305,9 @@ func (c *ClusterInfo) Sync(cluster *proxyv1alpha1.UpstreamCluster) error {
 			// we should never get here because there is validating admission
 			return err
 		}
+	} else if !features.IsDefault(c.featuregate) {
+		// all annotations were removed: the gates they had set go back to their defaults
+		c.featuregate = features.DefaultMutableFeatureGate.DeepCopy()
 	}
 
 	// sync flow control type
@@ -566,6 +569,10 @@ func (c *ClusterInfo) syncFeatureGate(annotations map[string]string) error {
 			c.featuregate = features.DefaultMutableFeatureGate.DeepCopy()
 		}
 		return nil
+	}
+	if !features.IsDefault(c.featuregate) {
+		// start from the defaults: a gate that is no longer listed must not stay set
+		c.featuregate = features.DefaultMutableFeatureGate.DeepCopy()
 	}
 	return c.featuregate.Set(featuregate)
 }
